@@ -317,8 +317,10 @@ def run(chk, tier):
     from ..rules import iters as _ITX
     _ITX.reverse_index_area(chk, db, ['_string_view/', '_string/char_traits'])      # IT4i: downward index scans reach index 0
     _ITX.resume_area(chk, db, ['_string_view/', '_algorithm/find_end', '_algorithm/search'])      # RESUME: pattern searches try every candidate position
+    _ITX.index_loop_area(chk, db, ['_string_view/'])      # IDXLOOP: index loops over the own elements stop before size()
     _ITX.counted_buffer_area(chk, db, ['_string/char_traits'], floor=3)      # PTRCOUNT: (pointer, count) buffers are indexed below count
     from ..rules import exits as _EX
+    _EX.check_fwindow(chk, db)      # FWINDOW: forward pointer scans end at data() + size()
     if _EX.check_rwindow(chk, db) < 1:      # both rfind members became pure delegations: nothing to judge here
         chk.unknown_instance('RWINDOW', 'etl::basic_string_view::rfind', 'no rfind member with a prologue of its own')
     from ..rules import sibs as _SB
